@@ -21,8 +21,9 @@ PID = "C03"
 M_E = 510998.95069          # Optics/Maps.v m_e; asserted against cheetah on every run
 PREAMBLE = """From Coq Require Import Reals Lra.
 From Interval Require Import Tactic.
-From Cheetah Require Import Base.Mat Optics.Maps Optics.Sympl Optics.SymplProofs Optics.SymplCorr.
-Open Scope R_scope."""
+From Cheetah Require Import Base.Mat Optics.Maps Optics.Sympl Optics.SymplProofs Optics.SymplCorr Bmadx.SymplX.
+Open Scope R_scope.
+Ltac c03_driftx := unfold driftx_dx, driftx_dy, driftx_dz, driftx_g, sqrt_one, dx_Pl, dx_Pxy2; interval with (i_prec 80)."""
 
 S6 = torch.zeros(6, 6, dtype=torch.float64)
 S6[0, 1] = 1.0
@@ -333,6 +334,33 @@ def correspondence(run, n):
             tol = (1e-9 if kind == "cav" else 1e-11) * max(1.0, abs(v))
             goals.append(entry_goal(model, i, j, v, tol, tac))
             ctx.append({"kind": "corr_entry", "class": kind, "spec": spec, "energy": E, "entry": [i, j], "observed": v})
+    # Bmad-X exact drift: the literal Coq transcription (Bmadx/SymplX.v) vs cheetah.utils.bmadx.track_a_drift
+    try:
+        from cheetah.utils import bmadx as bx
+        have = hasattr(bx, "track_a_drift")
+    except Exception:
+        have = False
+    if have:
+        for _ in range(max(4, n // 2)):
+            L = pick(run.rng, LEN[1:], 0.01, 5.0)
+            x, px, y, py, z, pz = gen_point(run.rng)
+            E = gen_energy(run.rng)
+            p0c = math.sqrt(E * E - M_E * M_E)
+            try:
+                xo, yo, zo = bx.track_a_drift(T(L), T([x]), T([px]), T([y]), T([py]), T([z]), T([pz]), T(p0c), T(M_E))
+            except Exception:
+                run.count("corr_driftx_api_changed")
+                break
+            run.add_case(["corr", "driftx", L, [x, px, y, py, z, pz], E], True)
+            run.count("corr_driftx")
+            args = f"{dyadic(px)} {dyadic(py)} {dyadic(pz)}"
+            for name, model, q0, out in (("x", f"driftx_dx {dyadic(L)} {args}", x, float(xo[0])),
+                                         ("y", f"driftx_dy {dyadic(L)} {args}", y, float(yo[0])),
+                                         ("z", f"driftx_dz {dyadic(L)} {dyadic(p0c)} {dyadic(M_E)} {args}", z, float(zo[0]))):
+                tol = 1e-11 * max(1e-3, abs(out))
+                goals.append((f"Rabs ({dyadic(q0)} + {model} - {dyadic(out)}) <= {dyadic(tol)}", "c03_driftx."))
+                ctx.append({"kind": "corr_driftx", "class": "bmadx.track_a_drift", "coordinate": name, "length": L,
+                            "point": [x, px, y, py, z, pz], "energy": E, "observed": out})
     failing, errs = common.run_real_goals(PID, "entries", PREAMBLE, goals, shard=24)
     run.cov["traces_validated_against_impl"] += len(goals) - len(failing)
     run.cov["interval_goals"] = len(goals)
@@ -393,6 +421,8 @@ def gen_nonlinear(rng, kind):
 
 
 def check_jac(spec, x, E):
+    if spec["cls"] == "Cavity" and spec["kw"]["voltage"] != 0 and cavity_ratio(spec, E) is None:
+        return "skip", {"what": "cavity outside domain (Ef <= 0 is rejected by the code, cos(phi) ~ 0)"}
     el = build(spec)
     J = jacobian(el, T(x), E)
     if not bool(torch.isfinite(J).all()):
@@ -504,6 +534,8 @@ def oracle_seventh_track(run, n):
         spec = gen_nonlinear(run.rng, kind)
         E = gen_energy(run.rng)
         ps = [gen_point(run.rng) + [1.0] for _ in range(5)]
+        if spec["cls"] == "Cavity" and cavity_ratio(spec, E) is None:
+            continue
         try:
             out = build(spec).track(cheetah.ParticleBeam(T(ps), T(E), dtype=torch.float64))
         except AssertionError:
